@@ -401,8 +401,13 @@ func (r *runner) run(c *Case) (res caseResult) {
 	}
 
 	// which successful mutating calls went through a link, or addressed something that is not in T
-	through := -1 // index of the first link followed by a successful mutating call
-	var throughOps, strayOps []string
+	type viaCall struct {
+		text string
+		last int // the last link among the components above the path's last component
+	}
+	var via []viaCall
+	var strayOps []string
+	directlyMutated := map[string]bool{} // relative paths on which a successful mutating call was made without any link above
 	for i := range ops {
 		op := &ops[i]
 		rel := strings.TrimPrefix(op.Path, caseDir+"/")
@@ -410,14 +415,13 @@ func (r *runner) run(c *Case) (res caseResult) {
 			continue
 		}
 		parts := strings.Split(rel, "/")
-		viaLink := -1
+		last := -1
 		for k := 1; k < len(parts); k++ { // proper prefixes
 			if j, ok := linkAt[strings.Join(parts[:k], "/")]; ok {
-				viaLink = j
-				break
+				last = j
 			}
 		}
-		if _, ok := linkAt[rel]; ok || viaLink >= 0 {
+		if _, ok := linkAt[rel]; ok || last >= 0 {
 			res.LinkReached = true
 		}
 		if !op.Mutates || op.Err != nil {
@@ -427,14 +431,47 @@ func (r *runner) run(c *Case) (res caseResult) {
 		if !underT(rel) {
 			strayOps = append(strayOps, op.String())
 		}
-		if viaLink >= 0 {
-			if through < 0 {
-				through = viaLink
-			}
-			if len(throughOps) < 6 {
-				throughOps = append(throughOps, op.String())
-			}
+		if last >= 0 {
+			via = append(via, viaCall{op.String(), last})
+		} else {
+			directlyMutated[rel] = true
 		}
+	}
+	var throughOps []string
+	for i := range via {
+		if i < 6 {
+			throughOps = append(throughOps, via[i].text)
+		}
+	}
+	// the link a violation is attributed to: the first call whose last link leaves the tree, else the first call through a link
+	through := -1
+	for _, v := range via {
+		if !c.Links[v.last].aliasing() || c.Links[v.last].Kind == LUp {
+			through = v.last
+			break
+		}
+	}
+	if through < 0 && len(via) > 0 {
+		through = via[0].last
+	}
+	throughClass := "none"
+	if through >= 0 {
+		switch c.Links[through].Kind {
+		case LUp:
+			throughClass = "link-to-above-the-tree"
+		case LAncestor:
+			throughClass = "link-to-ancestor"
+		case LFileIn, LDirIn:
+			throughClass = "link-to-inside"
+		default:
+			throughClass = "link-to-outside"
+		}
+	}
+	// signatures name the code path, not the entry point: Rm / Remove… / CleanDir… / the removal half of MoveBetweenFS
+	// are one mutually recursive routine ("rm"); garbage collection has its own recursion ("gc")
+	sigOp := "rm"
+	if fam == "gc" {
+		sigOp = "gc"
 	}
 
 	// A: everything that is not T is unchanged
@@ -475,10 +512,6 @@ func (r *runner) run(c *Case) (res caseResult) {
 			note("created", "created: "+p)
 		}
 	}
-	throughKind := "none"
-	if through >= 0 {
-		throughKind = c.Links[through].Kind
-	}
 	detail := func(extra map[string]any) map[string]any {
 		d := map[string]any{"case": c, "case_text": c.String(), "returned": fmt.Sprint(err), "tree_before": dumpUnder(before, true), "left_of_tree": dumpUnder(after, true)}
 		for k, v := range extra {
@@ -488,13 +521,13 @@ func (r *runner) run(c *Case) (res caseResult) {
 	}
 	switch {
 	case len(g.lexical) > 0:
-		res.Viols = append(res.Viols, violation{fmt.Sprintf("mutation-outside-case-directory:op=%s", fam), detail(map[string]any{"refused_calls": g.lexical})})
+		res.Viols = append(res.Viols, violation{fmt.Sprintf("mutation-outside-case-directory:op=%s", sigOp), detail(map[string]any{"refused_calls": g.lexical})})
 	case len(outsideDiff) > 0:
-		res.Viols = append(res.Viols, violation{fmt.Sprintf("outside-changed:op=%s:through=%s:what=%s", fam, throughKind, what), detail(map[string]any{"outside_diff": outsideDiff, "calls_through_a_link": throughOps, "calls_not_in_T": strayOps})})
+		res.Viols = append(res.Viols, violation{fmt.Sprintf("outside-changed:op=%s:through=%s:what=%s", sigOp, throughClass, what), detail(map[string]any{"outside_diff": outsideDiff, "calls_through_a_link": throughOps, "calls_not_in_T": strayOps})})
 	case len(strayOps) > 0:
-		res.Viols = append(res.Viols, violation{fmt.Sprintf("mutation-outside-tree:op=%s", fam), detail(map[string]any{"calls_not_in_T": strayOps})})
+		res.Viols = append(res.Viols, violation{fmt.Sprintf("mutation-outside-tree:op=%s", sigOp), detail(map[string]any{"calls_not_in_T": strayOps})})
 	case through >= 0:
-		res.Viols = append(res.Viols, violation{fmt.Sprintf("link-followed:op=%s:through=%s", fam, throughKind), detail(map[string]any{"calls_through_a_link": throughOps})})
+		res.Viols = append(res.Viols, violation{fmt.Sprintf("link-followed:op=%s:through=%s", sigOp, throughClass), detail(map[string]any{"calls_through_a_link": throughOps})})
 	}
 
 	// state of the tree afterwards
@@ -519,46 +552,40 @@ func (r *runner) run(c *Case) (res caseResult) {
 	if err == nil && c.Protect == 0 && fam != "gc" {
 		bad := (fam == "remove" && rootThere) || (fam == "clean" && left > 0)
 		if bad {
-			classes := map[string]bool{}
+			// what is left is classified by the links that survived: one whose target does not exist (any more), else
+			// one whose target exists (only a cycle of links makes such a link survive), else none
+			leftClass := "no-link"
 			for j := range c.Links {
 				if e, ok := after[c.linkRel(j)]; ok && e.Kind == 'l' {
-					switch _, targetThere := after[c.linkTargetRel(j)]; {
-					case c.Links[j].Kind == LAncestor || c.Links[j].Kind == LUp:
-						classes["loop-link"] = true
-					case !targetThere:
-						classes["dangling-link"] = true
-					default:
-						classes["live-link"] = true
+					if _, targetThere := after[c.linkTargetRel(j)]; !targetThere && c.Links[j].Kind != LUp {
+						leftClass = "dangling-link"
+						break
 					}
+					leftClass = "live-link"
 				}
 			}
-			var cl []string
-			for k := range classes {
-				cl = append(cl, k)
-			}
-			sort.Strings(cl)
-			if len(cl) == 0 {
-				cl = []string{"no-link"}
-			}
-			res.Viols = append(res.Viols, violation{fmt.Sprintf("not-removed-but-success:op=%s:left=%s", fam, strings.Join(cl, "+")), detail(nil)})
+			res.Viols = append(res.Viols, violation{fmt.Sprintf("not-removed-but-success:op=%s:left=%s", sigOp, leftClass), detail(nil)})
 		}
 	}
 
 	// D: the protected entry and the directories above it survive
 	if p := c.protectedRel(); p != "" {
-		depth := strings.Count(p, "/")
 		depthClass := "top"
-		if depth > 1 {
+		if strings.Count(p, "/") > 1 {
 			depthClass = "nested"
+		}
+		how := "through-link" // removed by a call on another path of the same entry
+		if directlyMutated[p] {
+			how = "direct"
 		}
 		a, ok := after[p]
 		bf := before[p]
 		if !ok || a.Kind != bf.Kind || a.Content != bf.Content {
-			res.Viols = append(res.Viols, violation{fmt.Sprintf("protected-entry-lost:op=%s:depth=%s:kind=%c", fam, depthClass, bf.Kind), detail(map[string]any{"pattern": c.pattern(), "protected": p})})
+			res.Viols = append(res.Viols, violation{fmt.Sprintf("protected-entry-lost:op=%s:how=%s:depth=%s", sigOp, how, depthClass), detail(map[string]any{"pattern": c.pattern(), "protected": p, "calls_through_a_link": throughOps})})
 		} else {
 			for q := filepath.Dir(p); q != "." && q != "/"; q = filepath.Dir(q) {
 				if e, ok := after[q]; !ok || e.Kind != 'd' {
-					res.Viols = append(res.Viols, violation{fmt.Sprintf("protected-ancestor-lost:op=%s:depth=%s", fam, depthClass), detail(map[string]any{"pattern": c.pattern(), "protected": p, "ancestor": q})})
+					res.Viols = append(res.Viols, violation{fmt.Sprintf("protected-ancestor-lost:op=%s:depth=%s", sigOp, depthClass), detail(map[string]any{"pattern": c.pattern(), "protected": p, "ancestor": q})})
 					break
 				}
 			}
